@@ -121,13 +121,13 @@ func (c *clientStream) Header() (metadata.MD, error) {
 		select {
 		case <-c.headerC:
 			// we should still return the headers if we have them, even if the context is done
-			return c.header, nil
+			return c.header.Copy(), nil
 		default:
 			// when the stream is terminated without headers, ClientStream should return a nil error
 			return nil, nil
 		}
 	case <-c.headerC:
-		return c.header, nil
+		return c.header.Copy(), nil // a copy, as in gRPC: what the caller does to it stays with the caller
 	}
 }
 
@@ -135,7 +135,7 @@ func (c *clientStream) Trailer() metadata.MD {
 	// the handler may still be running (and setting trailers) when the caller gave up on the call
 	c.headerM.Lock()
 	defer c.headerM.Unlock()
-	return c.trailer
+	return c.trailer.Copy()
 }
 
 func (c *clientStream) CloseSend() error {
